@@ -237,3 +237,146 @@ impl SubCheck for PoolSub {
         Verdict::pass(c.rounds >= 50 && n >= 2, cl)
     }
 }
+
+// ---------------------------------------------------------------------------
+// "A returned step is complete": what the workers did is *visible* to the thread
+// that sees the pool idle. `pool_is_idle()` documents: "If `true` is returned, it
+// is guaranteed that all operations performed by the now-inactive workers become
+// visible in this thread". The miniature executor below follows the real worker
+// loop (work, optionally activate peers, `try_set_worker_inactive`, the last one
+// calls `set_all_workers_inactive` and unparks the executor; a re-activated worker
+// works again) with plain, non-atomic memory as the "work". No timing is involved.
+// Natively this checks the protocol's outcome (every worker's last write is read
+// back, the pool becomes idle, the run terminates); under Miri (thorough tier) a
+// missing Release/Acquire edge in the pool manager is a reported data race.
+
+#[derive(Clone, Debug, Serialize, Deserialize)]
+pub(crate) struct PoolVisCase {
+    /// per worker: (yields before working, peer activations after working)
+    pub workers: Vec<(u8, u8)>,
+    /// does the executor thread spin on `pool_is_idle` (true) or park between looks, as `run` does
+    pub spin: bool,
+}
+
+pub(crate) struct PoolVisSub;
+
+struct Cells(Vec<std::cell::UnsafeCell<u64>>);
+unsafe impl Sync for Cells {}
+
+impl SubCheck for PoolVisSub {
+    type Case = PoolVisCase;
+    fn name(&self) -> &'static str {
+        "c04-pool-visibility"
+    }
+    fn substrate(&self) -> &'static str {
+        "MT-real-threads"
+    }
+    fn strategy(&self) -> BoxedStrategy<PoolVisCase> {
+        (proptest::collection::vec((0u8..4, 0u8..3), 2..6), any::<bool>())
+            .prop_map(|(workers, spin)| PoolVisCase { workers, spin })
+            .boxed()
+    }
+    fn eval(&self, c: &PoolVisCase) -> Verdict {
+        super::note_case("C04", self.name(), c);
+        let n = c.workers.len().clamp(2, 8);
+        let mut parkers = Vec::new();
+        let mut unparkers = Vec::new();
+        let mut stealers = Vec::new();
+        let mut keep = Vec::new();
+        for _ in 0..n {
+            let (p, u) = parking::pair();
+            parkers.push(p);
+            unparkers.push(u);
+            let w = st3::fifo::Worker::<()>::new(16);
+            stealers.push(w.stealer());
+            keep.push(w);
+        }
+        let pm = Arc::new(PoolManager::new(n, stealers.into_boxed_slice(), unparkers.into_boxed_slice()));
+        let (exec_parker, exec_unparker) = parking::pair();
+        let cells = Arc::new(Cells((0..n).map(|_| std::cell::UnsafeCell::new(0u64)).collect()));
+        // what each worker wrote last (relaxed: creates no happens-before edge of its own)
+        let wrote: Arc<Vec<AtomicUsize>> = Arc::new((0..n).map(|_| AtomicUsize::new(0)).collect());
+        let over = Arc::new(AtomicBool::new(false));
+        pm.set_all_workers_active();
+        let mut hs = Vec::new();
+        for (w, parker) in parkers.into_iter().enumerate() {
+            let (pm, cells, wrote, over, exec_unparker) = (pm.clone(), cells.clone(), wrote.clone(), over.clone(), exec_unparker.clone());
+            let (yields, acts) = c.workers[w];
+            hs.push(std::thread::spawn(move || {
+                let mut generation = 0u64;
+                loop {
+                    for _ in 0..yields {
+                        std::thread::yield_now();
+                    }
+                    // the "work" of this activation: a plain write
+                    generation += 1;
+                    unsafe { *cells.0[w].get() = generation * 1000 + w as u64 };
+                    wrote[w].store(generation as usize, O::Relaxed);
+                    if generation == 1 {
+                        for _ in 0..acts {
+                            pm.activate_worker_relaxed();
+                        }
+                    }
+                    if !pm.try_set_worker_inactive(w) {
+                        // last active worker (the injector queue of this miniature is always empty)
+                        pm.set_all_workers_inactive();
+                        exec_unparker.unpark();
+                    }
+                    parker.park();
+                    if over.load(O::SeqCst) {
+                        return;
+                    }
+                    // re-activated by a peer: as in the real worker loop, the search that the
+                    // activating thread opened on behalf of this worker ends here
+                    pm.end_worker_search();
+                }
+            }));
+        }
+        // the executor thread, as `Executor::run`
+        loop {
+            if pm.pool_is_idle() {
+                break;
+            }
+            if c.spin {
+                std::thread::yield_now();
+            } else {
+                exec_parker.park();
+            }
+        }
+        let mut verdict = None;
+        let mut regen = 0;
+        for w in 0..n {
+            let v = unsafe { *cells.0[w].get() };
+            let g = wrote[w].load(O::Relaxed) as u64;
+            if g > 1 {
+                regen += 1;
+            }
+            if v == 0 || v % 1000 != w as u64 || v / 1000 < g {
+                verdict = Some(pfail(
+                    "idle-pool-work-not-visible",
+                    format!("the pool was seen idle, but the last write of worker {} (generation {}) is not visible to the executor thread: read {}", w, g, v),
+                ));
+                break;
+            }
+        }
+        over.store(true, O::SeqCst);
+        pm.activate_all_workers();
+        for h in hs {
+            let _ = h.join();
+        }
+        drop(keep);
+        if let Some(v) = verdict {
+            return v;
+        }
+        let mut cl = Vec::new();
+        if regen > 0 {
+            cl.push("worker-re-activated-by-a-peer");
+        }
+        if c.spin {
+            cl.push("executor-spins-on-idle");
+        } else {
+            cl.push("executor-parks-between-looks");
+        }
+        Verdict::pass(true, cl)
+    }
+}
